@@ -212,15 +212,27 @@ def r09_3(ctx):
 
 
 def _capture_adts(lib):
-    cap = None
+    """(capture reader, guarding newtype), by role rather than by representation: the capture reader is the
+    crate-local struct implementing io::Read that a two-variant local enum lends out as `&mut S` next to a
+    plain `&[u8]` (the borrowed detection input); the guard is the local newtype around it."""
+    readers = {i.get("self_adt") for i in lib.impls if i.get("trait") == "std::io::Read" and i.get("self_adt")}
+    caps = set()
     for path, a in lib.adts.items():
-        if a["crate"] != "xt" or a["kind"] != "struct":
+        if a["crate"] != "xt" or a["kind"] != "enum" or len(a["variants"]) != 2:
             continue
-        ftys = [f["ty"] for f in a["variants"][0]["fields"]]
-        if any("std::io::Cursor<std::vec::Vec<u8>>" in t for t in ftys) and any(i.get("self_adt") == path and i.get("trait") == "std::io::Read" for i in lib.impls):
-            cap = path
-    if not cap:
-        raise AnchorLost("capture reader (struct with a Cursor<Vec<u8>> field implementing io::Read) not found")
+        tys = [[f["ty"] for f in v["fields"]] for v in a["variants"]]
+        if not all(len(t) == 1 for t in tys):
+            continue
+        flat = [t[0] for t in tys]
+        mem = [t for t in flat if t.startswith("&") and "[u8]" in t and " mut " not in t]
+        for t in flat:
+            if t.startswith("&") and " mut " in t and mem:
+                for r in readers:
+                    if r and (r + "<") in t and lib.adts.get(r, {}).get("crate") == "xt":
+                        caps.add(r)
+    if len(caps) != 1:
+        raise AnchorLost(f"capture reader (local io::Read struct lent out as `&mut` next to `&[u8]` by the borrowed-input enum) not found ({sorted(caps)})")
+    cap = sorted(caps)[0]
     guard = None
     for path, a in lib.adts.items():
         if a["crate"] != "xt" or a["kind"] != "struct":
